@@ -63,6 +63,7 @@ def main():
     warnings.filterwarnings("ignore", message="Skipping some optimization steps")
     warnings.filterwarnings("ignore", message="SciPy is not installed")
     warnings.filterwarnings("ignore", message="Decoder cache could not acquire lock")
+    warnings.filterwarnings("ignore", message="Could not create a semantic pointer")
     rep = common.Report(cid, args.tier, seed)
     mod = importlib.import_module(f"harness.props.{cid.lower()}")
     rep.rule = getattr(mod, "RULE", "")
